@@ -13,11 +13,11 @@ open Xp.IOx
 
 def kindOfStr : String → Kind
   | "claim" => .claim | "xr" => .xr | "xrd" => .xrd | "crd" => .crd
-  | "rev" => .rev | "lock" => .lock | "usage" => .usage | _ => .res
+  | "rev" => .rev | "lock" => .lock | "usage" => .usage | "res2" => .res2 | "res3" => .res3 | _ => .res
 
 def Kind.str : Kind → String
   | .claim => "claim" | .xr => "xr" | .xrd => "xrd" | .crd => "crd"
-  | .rev => "rev" | .lock => "lock" | .usage => "usage" | .res => "res"
+  | .rev => "rev" | .lock => "lock" | .usage => "usage" | .res => "res" | .res2 => "res2" | .res3 => "res3"
 
 def ctlOfStr : String → Option Ctl
   | "claim" => some .claim | "xr" => some .xr | "defined" => some .defined
@@ -47,7 +47,9 @@ def objOf (idx : Nat) (j : Json) : Obj :=
     inuse := bool j "inuse"
     pkgs := strs j "pkgs"
     inactive := bool j "inactive"
-    skipDeps := bool j "skipDeps" }
+    skipDeps := bool j "skipDeps"
+    refKind := kindOfStr (str j "refKind")
+    ofKind := kindOfStr (str j "ofKind") }
 
 def enumFrom {α : Type} : Nat → List α → List (Nat × α)
   | _, [] => []
@@ -58,7 +60,16 @@ def actOf (j : Json) : Except String Act :=
   | "spawn" => match ctlOfStr (str j "c") with
     | some c => .ok (.spawn c (str j "name"))
     | none => .error "unknown controller"
-  | "step" => .ok (.step (nat j "t") (outcomeOfStr (str j "o")))
+  | "step" =>
+    if bool j "miss" then .error "a read missed an existing object (informer cache older than its creation): outside the model"
+    else if nat j "at" > 0 && str j "o" == "ok" then .ok (.lagStep (nat j "t") (nat j "at" - 1))
+    else .ok (.step (nat j "t") (outcomeOfStr (str j "o")))
+  | "edit" =>
+    let k : Key := ⟨kindOfStr (str j "kind"), str j "name"⟩
+    let w := str j "w"
+    if w == "flip" then .ok (.edit k .flip)
+    else if w.startsWith "ref=" then .ok (.edit k (.ref (w.drop 4).toString))
+    else .error s!"unknown edit {w}"
   | "del" => .ok (.del ⟨kindOfStr (str j "kind"), str j "name"⟩)
   | "gc" => .ok .gc
   | "unfin" => .ok (.unfin ⟨kindOfStr (str j "kind"), str j "name"⟩ (str j "fin"))
@@ -109,7 +120,7 @@ def diff (a b : St) : List String :=
 def Req.desc : Req → String
   | .get k => s!"get:{k.kind.str}:{k.name}"
   | .list kd => s!"list:{kd.str}"
-  | .listUsagesOf _ => "list:usage"
+  | .listUsagesOf _ _ => "list:usage"
   | .setStatus k _ _ => s!"update:{k.kind.str}:{k.name}:status"
   | .removeFin k _ _ => s!"update:{k.kind.str}:{k.name}"
   | .delete k fg => s!"delete:{k.kind.str}:{k.name}" ++ (if fg then ":fg" else "")
@@ -162,6 +173,19 @@ def stepObs (s : Sys) (a : Act) : Sys × StepObs × Bool × Bool :=
           | some t' => (match t'.prog with | .ret x => (x.str, x == .oos) | _ => ("", false))
           | none => ("", false)
         (s', { call := r.desc, resp := resp, res := res, chg := chg }, safe, oos)
+  | .lagStep i j =>
+    match s.ths[i]? with
+    | none => (s', { chg := chg }, true, false)
+    | some t =>
+      match t.prog with
+      | .ret _ => (s', { chg := chg }, true, false)
+      | .call r _ =>
+        let safe := safeReq s.st t.ctl t.name r
+        let src := if r.isRead then (s.past[j]?).getD s.st else s.st
+        let (res, oos) := match s'.ths[i]? with
+          | some t' => (match t'.prog with | .ret x => (x.str, x == .oos) | _ => ("", false))
+          | none => ("", false)
+        (s', { call := r.desc, resp := (exec src r).2.classStr, res := res, chg := chg }, safe, oos)
   | _ => (s', { chg := chg }, true, false)
 
 def handler : Handler := fun scn => do
